@@ -29,6 +29,8 @@ func init() {
 		{Tier: "repeats", Bound: 1},
 		{Tier: "iface", Bound: 0},
 		{Tier: "layered5", Size: 0, Bound: 0},
+		{Tier: "built1", Bound: 0},
+		{Tier: "subconv", Bound: 0},
 	}
 	callThorough := []Step{
 		{Tier: "direct", Bound: 1, Bound2: true},
@@ -42,17 +44,25 @@ func init() {
 		{Tier: "iface", Bound: 1},
 		{Tier: "layered5", Size: 1, Bound: 0},
 		{Tier: "layered5", Size: 0, Bound: 1},
+		{Tier: "built1", Bound: 1},
+		{Tier: "subconv", Bound: 1},
 	}
 	for _, p := range []string{"C01", "C02", "C05", "C13"} {
 		Plans[p] = map[string][]Step{"quick": callQuick, "thorough": callThorough}
 	}
+	for _, p := range []string{"C02", "C13"} {
+		Plans[p] = map[string][]Step{
+			"quick":    append(append([]Step{}, callQuick...), Step{Tier: "subdup", Bound: 1}),
+			"thorough": append(append([]Step{}, callThorough...), Step{Tier: "subdup", Bound: 1, Bound2: true}),
+		}
+	}
 	Plans["C01"] = map[string][]Step{
-		"quick":    append(append([]Step{}, callQuick...), Step{Tier: "illformed", Bound: 1}),
-		"thorough": append(append([]Step{}, callThorough...), Step{Tier: "illformed", Bound: 1, Bound2: true}),
+		"quick":    append(append([]Step{}, callQuick...), Step{Tier: "illformed", Bound: 1}, Step{Tier: "subdup", Bound: 1}),
+		"thorough": append(append([]Step{}, callThorough...), Step{Tier: "illformed", Bound: 1, Bound2: true}, Step{Tier: "subdup", Bound: 1, Bound2: true}),
 	}
 	Plans["C06"] = map[string][]Step{
-		"quick":    append(append([]Step{}, callQuick...), Step{Tier: "malformed", Bound: 0}, Step{Tier: "fails3x2", Bound: 0}, Step{Tier: "redef", Size: 0, Bound: 0}, Step{Tier: "redef", Size: 1, Bound: 0}),
-		"thorough": append(append([]Step{}, callThorough...), Step{Tier: "malformed", Bound: 1}, Step{Tier: "fails3x3", Bound: 0}, Step{Tier: "failsM3x2", Bound: 0}, Step{Tier: "exact", Size: 0, Bound: 0}, Step{Tier: "redef", Size: 1, Bound: 0}, Step{Tier: "redef", Size: 0, Bound: 1}),
+		"quick":    append(append([]Step{}, callQuick...), Step{Tier: "malformed", Bound: 0}, Step{Tier: "fails3x2", Bound: 0}, Step{Tier: "redef", Size: 0, Bound: 0}, Step{Tier: "redef", Size: 1, Bound: 0}, Step{Tier: "redefptr", Bound: 0}),
+		"thorough": append(append([]Step{}, callThorough...), Step{Tier: "malformed", Bound: 1}, Step{Tier: "fails3x3", Bound: 0}, Step{Tier: "failsM3x2", Bound: 0}, Step{Tier: "exact", Size: 0, Bound: 0}, Step{Tier: "redef", Size: 1, Bound: 0}, Step{Tier: "redef", Size: 0, Bound: 1}, Step{Tier: "redefptr", Bound: 1, Bound2: true}),
 	}
 	Plans["C03"] = map[string][]Step{
 		"quick":    {{Tier: "exact", Size: 0, Bound: 1}},
@@ -66,7 +76,7 @@ func init() {
 
 func init() {
 	Plans["C08"] = map[string][]Step{
-		"quick":    {{Tier: "redef", Size: 0, Bound: 1}, {Tier: "redef", Size: 1, Bound: 0}},
-		"thorough": {{Tier: "redef", Size: 0, Bound: 1, Bound2: true}, {Tier: "redef", Size: 1, Bound: 1}, {Tier: "redef", Size: 2, Bound: 0}},
+		"quick":    {{Tier: "redef", Size: 0, Bound: 1}, {Tier: "redef", Size: 1, Bound: 0}, {Tier: "redefptr", Bound: 0}, {Tier: "alias-C08", Size: 4}},
+		"thorough": {{Tier: "redef", Size: 0, Bound: 1, Bound2: true}, {Tier: "redef", Size: 1, Bound: 1}, {Tier: "redef", Size: 2, Bound: 0}, {Tier: "redefptr", Bound: 1, Bound2: true}, {Tier: "alias-C08", Size: 5}},
 	}
 }
